@@ -359,6 +359,7 @@ theorem swapDraws_suffix : ∀ (n : Nat) (t r : Tape), swapDraws n t = .ok r →
       | mutant _ => simp [swapDraws] at h
       | parents _ => simp [swapDraws] at h
       | inits _ => simp [swapDraws] at h
+      | vec _ => simp [swapDraws] at h
 
 theorem ptEvalMember_ok {cfg : PTCfg} {s s' : PopSt} {t1 : Tracker} {tape1 : Tape} {score : F} (hs1 : tape1 <:+ s.tape)
     (h : ptEvalMember cfg s t1 tape1 score = .ok s') :
